@@ -88,6 +88,11 @@ Next == /\ ~done /\ done' = TRUE
         /\ \A wt \in { <<1, -7, -2, 0, 2>>, <<1, -7, 2, 0, 2>>, <<8, -4, 1, 0, 256>>, <<8, -1, -1, 0, 256>>, <<4, -8, 3, 0, 16>>, <<1, -39, 1, 0, 2>>, <<8, -3, 1, 0, 0>>,
                      <<8, 0, 5, 0, 256>>, <<8, 5, 0, 0, 256>>, <<1, 0, 0, 0, 2>> } :
              Emit(<<"bmp-witness", wt>>, "bmp", "bmp.geometry-witness", BmpWitness(wt[1], wt[2], wt[3], wt[4], wt[5]), "any", <<>>)
+        \* ... and only modulo 2^32: pitch x |height| is 2^32 (or 2^32 + one row) while the file holds 0 (or one row of) pixel bytes
+        /\ \A wt \in { <<8, 65536, 65536, 0, 256>>, <<8, 65536, -65536, 0, 256>>, <<8, 32768, 131072, 0, 256>>, <<4, 131072, 65536, 0, 16>>, <<1, 2147483647, 16, 0, 2>>,
+                     <<1, 2147483647, -16, 0, 2>>, <<8, 4, 1073741824, 0, 256>>, <<8, 4, 1073741825, 4, 256>>, <<8, 32, 134217760, 1024, 256>>, <<1, 32, 1073741824, 0, 2>> } :
+             Emit(<<"bmp-witness32", wt>>, "bmp", "bmp.geometry-witness32", BmpWitness(wt[1], wt[2], wt[3], wt[4], wt[5]), "any", <<>>)
+        /\ Emit(<<"tsbmp-witness32">>, "tileset", "bmp.geometry-witness32", BmpWitness(8, 32, 134217760, 1024, 256), "any", <<>>)
         /\ \A hv \in { B(0,0,0,128), B(1,0,0,128), B(255,255,255,255) } : \A bc \in {1, 8} :
              EmitS(<<"bmp-height-min", hv, bc>>, "bmp", "bmp.geometry-witness",
                    SetBytes(BmpWitness(bc, 0, 0, 0, MaxPalette(bc)), 22, hv), "any", <<>>, hv = B(1,0,0,128))
